@@ -878,7 +878,7 @@ func checkAbsentImpliesNoCachedValue(r *Reporter, p *Prog, pkg, typ string) {
 		if !containsMatch(fd.Body, hasFalse) {
 			continue
 		}
-		f = newFuncCFGPlain(p, info, fd.Body, funcKey(pkg, fd))
+		f = newFuncCFG(p, info, fd.Body, funcKey(pkg, fd)) // with the cache accessors expanded: the nil test may sit in one
 		nilEdges := f.RelEdgesAt(func(rel Rel) bool {
 			return rel.Op == "==" && (strings.HasSuffix(rel.L, ".valueCached") && rel.R == "nil" || strings.HasSuffix(rel.R, ".valueCached") && rel.L == "nil")
 		})
